@@ -1,0 +1,44 @@
+//go:build verif
+
+package vectorstore
+
+import (
+	"github.com/semafind/semadb/distance"
+	"github.com/semafind/semadb/models"
+)
+
+// Exported wrappers around the unexported binary quantizer encode method and
+// its distance closures, only compiled with the verif build tag.
+
+// VerifBinaryEncode runs binaryQuantizer.encode with the given per-dimension
+// threshold (nil threshold means "not fitted yet").
+func VerifBinaryEncode(threshold, vector []float32) []uint64 {
+	bq := &binaryQuantizer{threshold: threshold}
+	return bq.encode(vector)
+}
+
+// VerifBinaryDistances evaluates the two distance closures of a binary
+// quantizer (query vector against a stored point, stored point against stored
+// point) for the given bit metric. The stored points carry the encoding of x
+// and y (or the raw vectors when the threshold is nil).
+func VerifBinaryDistances(threshold []float32, bitMetric, floatMetric string, x, y []float32) (fromFloat, fromPoint float32, err error) {
+	bitFn, err := distance.GetBitDistanceFn(bitMetric)
+	if err != nil {
+		return 0, 0, err
+	}
+	floatFn, err := distance.GetFloatDistanceFn(floatMetric)
+	if err != nil {
+		return 0, 0, err
+	}
+	bq := &binaryQuantizer{
+		threshold:   threshold,
+		params:      models.BinaryQuantizerParamaters{DistanceMetric: bitMetric},
+		floatDistFn: floatFn,
+		bitDistFn:   bitFn,
+	}
+	px := &binaryQuantizedPoint{id: 1, Vector: x, BinaryVector: bq.encode(x)}
+	py := &binaryQuantizedPoint{id: 2, Vector: y, BinaryVector: bq.encode(y)}
+	fromFloat = bq.DistanceFromFloat(x)(py)
+	fromPoint = bq.DistanceFromPoint(px)(py)
+	return fromFloat, fromPoint, nil
+}
